@@ -153,6 +153,13 @@ def strip (s : SDs) (mn mx mean : Bool) : SDs :=
   { s with mn := if mn then none else s.mn, mx := if mx then none else s.mx,
            mean := if mean then none else s.mean }
 
+/-- an attribute overwritten with an arbitrary value (raw h5py; `k` = 0 min, 1 max, 2 mean) -/
+def setAttr (s : SDs) (k : Nat) (v : Val) : SDs :=
+  match k with
+  | 0 => { s with mn := some v }
+  | 1 => { s with mx := some v }
+  | _ => { s with mean := some v }
+
 /-- `rtdc_copy`: data and attributes are copied, absent summaries are completed -/
 def copyDs (s : SDs) : SDs :=
   { s with mn := some (s.mn.getD (nanmin s.data)), mx := some (s.mx.getD (nanmax s.data)),
@@ -182,6 +189,8 @@ def sel : List Bool → List Val → List Val
 inductive Hist where
   /-- written through `RTDCWriter` in one or many calls -/
   | write (chunks : List (List Val))
+  /-- a file made by other software (raw h5py): any data, any stored attributes -/
+  | foreign (s : SDs)
   /-- `mode="replace"`: the feature is deleted and written anew -/
   | rewrite (h : Hist) (data : List Val)
   /-- further append calls on an existing file (also: `dclab-join` appending the other files) -/
@@ -195,6 +204,7 @@ inductive Hist where
 
 def build (rule : MeanRule) : Hist → Option SDs
   | .write chunks => appends rule chunks
+  | .foreign s => some s
   | .rewrite h data => storeFeature rule true (build rule h) data
   | .append h chunks => chunks.foldl (fun ds c => storeFeature rule false ds c) (build rule h)
   | .strip h a b c => (build rule h).map (fun s => strip s a b c)
